@@ -45,28 +45,36 @@ def parse_answer(items):
             out["log"] = log
     return out
 
+def hexf(x):
+    """exact Coq float literal (hexadecimal; parsed natively and cheaply)"""
+    x = float(x)
+    if x != x: return "nan"
+    if x == math.inf: return "infinity"
+    if x == -math.inf: return "neg_infinity"
+    h = abs(x).hex()
+    return "(-%s)" % h if math.copysign(1.0, x) < 0 else h
+
 def table_term(log):
-    """the oracle table : list oentry; duplicate keys dropped (first occurrence wins, like olookup)"""
+    """the oracle table as a flat `list float` (7 per call); duplicate keys dropped (first wins, like olookup)"""
     seen = set()
-    ents = []
+    nums = []
     for w, keys, res in log:
         k = (w, tuple(keys))
         if k in seen:
             continue
         seen.add(k)
-        ents.append("(%d, [%s], (%s, %s))" % (w, "; ".join("%d%%Z" % x for x in keys),
-                                             coq_float(bits_f64(res[0])), coq_float(bits_f64(res[1]))))
-    return "[" + "; ".join(ents) + "]"
+        nums += [float(w)] + [bits_f64(x) for x in keys] + [bits_f64(res[0]), bits_f64(res[1])]
+    return "[" + ";".join(hexf(x) for x in nums) + "]%float"
 
 def coeffs_term(elt, coeffs):
     if elt == 'f64':
-        return "[" + "; ".join(coq_float(x) for x in coeffs) + "]"
-    return "[" + "; ".join(coq_scalar('cplx', x) for x in coeffs) + "]"
+        return "[" + ";".join(hexf(x) for x in coeffs) + "]%float"
+    return "[" + ";".join("@mkC AF %s %s" % (hexf(complex(x).real), hexf(complex(x).imag)) for x in coeffs) + "]%float"
 
 def model_term(elt, coeffs, refine, log, trace=False):
     fn = "roots_f64" if elt == 'f64' else "roots_cplx"
     fl = "fl_roots_trace" if trace else "fl_roots"
-    return "%s (%s (%s : list oentry) %s %s)" % (fl, fn, table_term(log), coeffs_term(elt, coeffs), "true" if refine else "false")
+    return "%s (%s (%s) %s %s)" % (fl, fn, table_term(log), coeffs_term(elt, coeffs), "true" if refine else "false")
 
 def exe_path():
     return os.path.join(TARGET, "debug", "exec")
@@ -116,7 +124,7 @@ class LazyTerm:
 IMPORTS = "From OV Require Import Model.Roots."
 
 def parse_trace(zs, n_expected=None):
-    """decode the fl_roots_trace stream -> (root bits [(re,im)], [(exit, iters, finite)]) or ('P', kind)"""
+    """decode the fl_roots_trace stream -> (root bits [(re,im)], [(exit, iters, finite_in, finite_out)]) or ('P', kind)"""
     items = decode_coq(zs)
     if items and items[0][0] == 'P':
         return None, items[0][1]
@@ -127,5 +135,5 @@ def parse_trace(zs, n_expected=None):
     cnt = items[pos][1]; pos += 1
     tr = []
     for k in range(cnt):
-        tr.append((items[pos][1], items[pos + 1][1], items[pos + 2][1])); pos += 3
+        tr.append((items[pos][1], items[pos + 1][1], items[pos + 2][1], items[pos + 3][1])); pos += 4
     return bits, tr
